@@ -2,7 +2,7 @@
    Statements only; proofs in Overlay/DoneProofs.v. [run fx init acts] ranges over
    every interleaving of message threads, local runs, done-declarations, tree
    requests/responses and timer goroutines of one server. [good fx] = the
-   repairs F12, F13 and F27 are in place. *)
+   repairs F12, F13 and F27 are in place (all three are in /repo). *)
 From Coq Require Import List Arith.
 Import ListNotations.
 From Onet Require Import Overlay.Done Overlay.DoneProofs.
@@ -21,18 +21,22 @@ Theorem c11_others_unaffected : forall fx s k s' k',
 Proof. exact done_local. Qed.
 Print Assumptions c11_others_unaffected.
 
-(* the tree of a run is present for as long as an instance (or a message thread that
-   already found it) uses it *)
+(* the tree of a run is stored for as long as an instance there uses it *)
 Theorem c11_tree_while_used : forall fx acts s k,
-  good fx -> run fx init acts = Some s ->
-  (inst s k = IActive \/ In k (hits s)) -> trees s (tree_of k) = TPresent.
+  good fx -> run fx init acts = Some s -> inst s k = IActive -> trees s (tree_of k) = TPresent.
 Proof. exact tree_while_used. Qed.
 Print Assumptions c11_tree_while_used.
 
-(* during the grace period (a removal is scheduled) peers asking for the tree get it *)
-Theorem c11_tree_during_grace : forall fx acts s i c s',
-  good fx -> run fx init acts = Some s -> cancel s i = Some c ->
-  step fx s (ReqTree i) = Some s' -> hd_error (answers s') = Some (i, true).
+(* ... and for the grace period after the last one finished: the last Done on a tree, in any
+   reachable state, schedules a removal c, and for as long as that removal stays scheduled
+   (not cancelled by a new user of the tree, not carried out by its timer) -- whatever else
+   happens on the server -- the tree is stored and a peer asking for it gets it *)
+Theorem c11_tree_during_grace : forall fx acts s k s1,
+  good fx -> run fx init acts = Some s -> step fx s (Done k) = Some s1 -> in_use s1 (tree_of k) = false ->
+  exists c, cancel s1 (tree_of k) = Some c /\
+    forall acts2 s2, run fx s1 acts2 = Some s2 -> cancel s2 (tree_of k) = Some c ->
+      trees s2 (tree_of k) = TPresent /\
+      forall s3, step fx s2 (ReqTree (tree_of k)) = Some s3 -> hd_error (answers s3) = Some (tree_of k, true).
 Proof. exact tree_during_grace. Qed.
 Print Assumptions c11_tree_during_grace.
 
@@ -70,6 +74,19 @@ Theorem c11_remove_after_lookup_refuted :
                  inst s kb = IActive /\ trees s (tree_of kb) = TAbsent.
 Proof. exact remove_after_lookup_refuted. Qed.
 Print Assumptions c11_remove_after_lookup_refuted.
+
+Theorem c11_remove_after_lookup_repaired :
+  exists s, run all_fixed init [LocalCreate ka; LocalSet ka; MsgLookup kb; Done ka; MsgDeliver kb; TimerFire 0; TimerDelete 0] = Some s /\
+            inst s kb = IActive /\ trees s (tree_of kb) = TPresent /\ cancel s (tree_of kb) = None /\ timers s = [].
+Proof. exact remove_after_lookup_repaired. Qed.
+Print Assumptions c11_remove_after_lookup_repaired.
+
+Example c11_rearm_on_released_tree :
+  exists s c, run all_fixed init [LocalCreate ka; LocalSet ka; Done ka; MsgLookup ka; LocalCreate kb; LocalSet kb;
+                                  Done kb; TimerFire 1; TimerDelete 1; MsgDeliver ka] = Some s /\
+              cancel s 0 = Some c /\ trees s 0 = TAbsent /\ in_use s 0 = false.
+Proof. exact rearm_on_released_tree. Qed.
+Print Assumptions c11_rearm_on_released_tree.
 
 Theorem c11_late_message_leak_refuted :
   exists acts s, run (mkFixes true true true false) init acts = Some s /\
